@@ -55,6 +55,10 @@ COQ_RESERVED = {'pat', 'thunk', 'conc', 'mp', 'fun', 'forall', 'exists', 'match'
                 'if', 'then', 'else', 'as', 'at', 'fix', 'cofix', 'return', 'Type', 'Prop', 'Set', 'using', 'where'}
 
 
+# (python name, parameter types, Gallina function, documented rule)
+PRIMITIVES = [('modus_ponens', ['thunk', 'thunk'], 'mp', 'p -> q    p\n----------\nq')]
+
+
 class Unsupported(Exception):
     def __init__(self, where, node, why):
         self.where, self.node, self.why = where, node, why
@@ -634,6 +638,19 @@ def translate(repo_src, extra_path):
                        prem_vars=m.prem_vars)
         index.append(dict(name=n, cls=m.cls, idx=k, params=[dict(name=pn, type=pt, default=pd) for pn, pt, pd in m.params],
                           schema=sch, spec=m.spec_kind, sha=m.sha, calls=m.calls, doc=m.doc))
+    # DSL primitives of proof.py (hand-modelled in Lib/Term.v, lemmas in Lib/TermFacts.v): part of the
+    # correspondence check only
+    for k2, (pn, ptypes, coqf, doc) in enumerate(PRIMITIVES):
+        k = len(out_order) + k2
+        names = [f'a{j}' for j in range(len(ptypes))]
+        pats = '; '.join((f'APat {v(a)}' if t == 'pat' else f'AThunk {v(a)}') for a, t in zip(names, ptypes))
+        d.append(f'  | {k}, [{pats}] => Some ({coqf} ' + ' '.join(v(a) for a in names) + ')')
+        sch = S.parse_docstring(doc)
+        binding, prem_vars = S.bind_schema(sch, [a for a, t in zip(names, ptypes) if t == 'pat'],
+                                           sum(1 for t in ptypes if t == 'thunk'), pn)
+        index.append(dict(name=pn, cls='ProofExp', idx=k, params=[dict(name=a, type=t, default=None) for a, t in zip(names, ptypes)],
+                          schema=dict(premises=sch['premises'], conclusions=sch['conclusions'], binding=binding, prem_vars=prem_vars),
+                          spec='primitive', sha=None, calls=[], doc=doc))
     d.append('  | _, _ => None\n  end.')
     d.append(f'Definition n_entry_points : N := {len(out_order)}.')
     text = ('\n'.join(d) + '\n', '\n'.join(o) + '\n')
